@@ -122,7 +122,9 @@ C04Judge(e) ==
     /\ CReport("C04_NoLeaveEvent", e,
                ~(e.ev \in {"NodeOp", "Reap"} /\ \E i \in DOMAIN e.events :
                     e.events[i].kind = "leave" /\ e.events[i].name \notin leavers))
-    /\ CReport("C04_Healthy", e, ~(e.ev = "Health" /\ e.incPost > 0 /\ ~Excused(e.n)))
+    \* (an INCREASE of the score: a score left over from an excused increase may take several successful
+    \* probes to come down again)
+    /\ CReport("C04_Healthy", e, ~(e.ev = "Health" /\ e.incPost > e.incPre /\ ~Excused(e.n)))
 
 \* C03 / C05 at the end of the run
 EndJudge(e) ==
